@@ -93,6 +93,20 @@ Theorem C15_xy_order_builtin : forall name doc, In (name, doc) gen_tms_documents
 Proof. exact xy_order_builtin_lemma. Qed.
 Print Assumptions C15_xy_order_builtin.
 
+(** the orderedAxes fall-back (CRS authority unknown, i.e. none of the built-in sets): northing-first orders are swapped,
+    easting-first orders are not — for every spelling of the recognised axis names (regression of defect F15: the two
+    patterns were the wrong way round, so a set with orderedAxes [X, Y] had its point of origin mirrored) *)
+Theorem C15_fallback_axis_order : forall a b rest r, In (to_lower a, to_lower b, r) axis_table ->
+  axisOrderIsLatLon (Some (a :: b :: rest)) = Ok r.
+Proof. exact fallback_axis_order. Qed.
+Print Assumptions C15_fallback_axis_order.
+
+Example C15_regression_F15 :
+  axisOrderIsLatLon (Some ["X"; "Y"]%string) = Ok false /\ axisOrderIsLatLon (Some ["E"; "N"]%string) = Ok false /\
+  axisOrderIsLatLon (Some ["Lat"; "Lon"]%string) = Ok true /\ axisOrderIsLatLon (Some ["Lon"; "Lat"]%string) = Ok false /\
+  axisOrderIsLatLon (Some ["Y"; "X"]%string) = Ok true.
+Proof. repeat split; reflexivity. Qed.
+
 (** ** Non-vacuity *)
 (** WGS1984Quad (EPSG:4326, lat/lon: origin [90, -180] becomes (-180, 90)), matrix 3, tile (5, 2), offset (1/3, 3/4) *)
 Example C15_example_latlon : exists t m p,
